@@ -426,7 +426,7 @@ func TestC12Blocks(t *testing.T) {
 // ---- >1024-document merges: faults and cancellations enumerated per Write call ----
 
 const c12WideRule = "case = public merge of a >1024-document input (2..4 doc-value fields present in drawn ranges only) and a second input (small or again >1024 documents), drops drawn, merge buffer from {16,64,1024}; " +
-	"the fault-free run records where every Write call of the destination ends; then for EVERY Write call c (<= 400 calls, else every call within 2 of a write of >= 64 bytes, ~120 evenly spaced other calls and the last 20): the close channel is closed during call c " +
+	"the fault-free run records where every Write call of the destination ends; then for EVERY Write call c (<= 400 calls, else every call within 2 of a write of >= 64 bytes, ~120 evenly spaced other calls and the last 80; half of the inputs end in a DV-less field whose two terms are in every document): the close channel is closed during call c " +
 	"(result must be ErrClosed, or nil with the complete fault-free file), and (for every write of >= 64 bytes and every 8th other call) the writer fails forever from call c on, and fails only call c (both must yield a non-nil error); " +
 	"non-trivial = >= 2 doc-value chunks of one field written and a cancellation observed between them (both outcomes, closed and complete, occur in the case); distinct = hash of the workload text"
 
